@@ -4,6 +4,7 @@ import (
 	"crypto/sha256"
 	"encoding/hex"
 	"encoding/json"
+	"errors"
 	"fmt"
 	"io"
 	"io/fs"
@@ -133,10 +134,25 @@ func (proj *Project) load(index bool) (err error) {
 	if err = proj.loadPackage(nil, "//"); err != nil {
 		return err
 	}
-	for _, m := range proj.modules {
-		if m.err != nil {
-			return m.err
+	// Report the failures of all modules, in a fixed order: which failed module a map iteration meets first is
+	// random, and a cyclic load must not go unreported because an unrelated module failed as well.
+	keys := make([]string, 0, len(proj.modules))
+	for key := range proj.modules {
+		keys = append(keys, key)
+	}
+	sort.Strings(keys)
+	var errs []error
+	for _, key := range keys {
+		if m := proj.modules[key]; m.err != nil {
+			errs = append(errs, m.err)
 		}
+	}
+	switch len(errs) {
+	case 0:
+	case 1:
+		return errs[0]
+	default:
+		return errors.Join(errs...)
 	}
 
 	if err := proj.link(); err != nil {
